@@ -377,9 +377,17 @@ def boundary_cases():
     return out
 
 
+# a FIXED-seed stream of generated cases that by itself (with the boundary cases) satisfies every requirement of
+# sanity(), so that no requirement depends on the run's random draws
+FIXED_STREAM_SEED = 20260930
+FIXED_STREAM_SIZE = 120
+
+
 def generate(rng, tier):
-    n = 200 if tier == "quick" else 6000
-    return boundary_cases() + [gen_case(rng, tier) for _ in range(n)]
+    n = 90 if tier == "quick" else 6000
+    fixed_rng = C.Rng(FIXED_STREAM_SEED)
+    return boundary_cases() + [gen_case(fixed_rng, tier) for _ in range(FIXED_STREAM_SIZE)] + \
+        [gen_case(rng, tier) for _ in range(n)]
 
 
 # ------------------------------------------------------------------ implementation
